@@ -261,6 +261,11 @@ def run(ctx):
     check_disp8(db, rep, "D10-DISP8-RANGE")
     check_rel8_predicates(db, rep, "D10-DISP8-RANGE")
     d11_emms_hook_unconditional(db, rep)
+    # D12: same sentence: between rows of a 2-D program the code adds the int stride to the 8-byte array pointers in the executor;
+    # a stride loaded without its sign moves a destination pointer forward by almost 4 GiB, the next row is written there
+    # (rule shared with C03 D11)
+    import importlib
+    importlib.import_module("rules.c03").d11_stride_sign(db, rep, "D12-STRIDE-SIGN")
     # D7: the generated loops process exactly ex->n elements: the region counters tile n on every emitted path (shared with
     # C03 D10) - otherwise the function writes past the end of its destination arrays
     import emitsym
